@@ -5,7 +5,7 @@ package util
 // paths is run on a real trie (memory store) and compared, after every step, with a Go map:
 // lookups of all paths, the error of deleting an absent path, and full iteration.
 // property: C01
-// scope: paths {"", 12, 13, 1234, 1235, 12ab, 12abcd, 5678}; values {x, y}; all sequences of <= 3 operations (quick) / <= 4 (thorough)
+// scope: paths {"", 12, 13, 1234, 1235, 12ab, 12abcd, 5678}; values {x, y}; all sequences of <= 3 operations (quick) / <= 4 (thorough), from the empty trie and from base contents {12,1234,5678}, {12,1234,1235}
 
 import (
 	"context"
@@ -47,6 +47,7 @@ func TestGocvBoundedC01(t *testing.T) {
 		}
 		fails++
 	}
+	var base []string
 	var run func(seq []c01op)
 	run = func(seq []c01op) {
 		if len(seq) > 0 {
@@ -61,6 +62,12 @@ func TestGocvBoundedC01(t *testing.T) {
 				_, tc := statecache.NewBlockTxnCaches(sc, statecache.Block{})
 				tr := NewMerklePatriciaTrie(NewMemoryNodeDB(), 1, nil, tc)
 				model := map[string]string{}
+				for _, p := range base {
+					if _, err := tr.Insert(Path(p), &SecureSerializableValue{Buffer: []byte("b")}); err != nil {
+						fail(seq, "base Insert(%q) failed: %v", p, err)
+					}
+					model[p] = "b"
+				}
 				for i, op := range seq {
 					if op.del {
 						_, err := tr.Delete(Path(op.path))
@@ -115,7 +122,12 @@ func TestGocvBoundedC01(t *testing.T) {
 		}
 	}
 	run(nil)
-	fmt.Printf("GOCV-BOUNDED cases=%d failures=%d scope=\"all sequences of <= %d insert/update/delete operations over 8 prefix-related hex paths, 2 values, memory store\"\n", cases, fails, depth)
+	// the same sequences on top of base contents (deeper histories: a value on a branch with one or two children below it)
+	for _, b := range [][]string{{"12", "1234", "5678"}, {"12", "1234", "1235"}} {
+		base = b
+		run(nil)
+	}
+	fmt.Printf("GOCV-BOUNDED cases=%d failures=%d scope=\"all sequences of <= %d insert/update/delete operations over 8 prefix-related hex paths, 2 values, memory store; from the empty trie and from the base contents {12,1234,5678} and {12,1234,1235}\"\n", cases, fails, depth)
 	if fails > 0 {
 		t.Fail()
 	}
